@@ -7,19 +7,21 @@
 // Rules (purely syntactic, applied to every occurrence in non-test files):
 //
 //	net   net.Dial / net.DialTimeout / net.ResolveIPAddr / http.Post -> verifhook.<same>
-//	lock  X.Lock() / X.Unlock() / X.RLock() / X.RUnlock()            -> verifhook.Lock(site, &X) ...
+//	lock  X.Lock() / X.Unlock() / X.RLock() / X.RUnlock()            -> verifhook.Lock(site, &(X)) ...
 //	go    go f(a, b)                                                 -> { vf, va, vb := f, a, b; verifhook.Go(site, func(){ vf(va, vb) }) }
 //	rand  math/rand top-level calls                                  -> func() T { verifhook.Yield(site); return rand.F(args) }()
+//
+// The go/ast tree is used only to locate the byte ranges to edit; the edits are
+// applied to the original text, so comments, cgo preambles, build constraints
+// and formatting survive untouched.
 package main
 
 import (
-	"bytes"
 	"encoding/json"
 	"flag"
 	"fmt"
 	"go/ast"
 	"go/parser"
-	"go/printer"
 	"go/token"
 	"os"
 	"path/filepath"
@@ -42,17 +44,23 @@ var randResults = map[string]string{
 	"Float64": "float64", "Perm": "[]int", "ExpFloat64": "float64", "NormFloat64": "float64", "Read": "(int, error)",
 }
 
+type edit struct {
+	lo, hi int
+	gen    func() string
+}
+
 type rewriter struct {
 	fset    *token.FileSet
 	file    *ast.File
+	src     []byte
 	base    string
 	rules   map[string]bool
-	netName string // local name of "net"
+	netName string
 	httpNm  string
 	randNm  string
-	changed bool
+	edits   []*edit
 	counts  map[string]int
-	skip    map[*ast.CallExpr]bool
+	removed map[string]int // package name -> selector uses replaced
 }
 
 func importName(f *ast.File, path string) string {
@@ -71,13 +79,66 @@ func importName(f *ast.File, path string) string {
 	return ""
 }
 
-func (rw *rewriter) site(pos token.Pos) *ast.BasicLit {
-	p := rw.fset.Position(pos)
-	return &ast.BasicLit{Kind: token.STRING, Value: strconv.Quote(fmt.Sprintf("%s:%d", rw.base, p.Line))}
+func importedAs(f *ast.File, name string) bool {
+	for _, im := range f.Imports {
+		p, _ := strconv.Unquote(im.Path.Value)
+		n := filepath.Base(p)
+		if im.Name != nil {
+			n = im.Name.Name
+		}
+		if n == name {
+			return true
+		}
+	}
+	return false
 }
 
-func hookSel(name string) *ast.SelectorExpr {
-	return &ast.SelectorExpr{X: ast.NewIdent(hookName), Sel: ast.NewIdent(name)}
+func (rw *rewriter) off(p token.Pos) int { return rw.fset.Position(p).Offset }
+
+func (rw *rewriter) site(pos token.Pos) string {
+	return strconv.Quote(fmt.Sprintf("%s:%d", rw.base, rw.fset.Position(pos).Line))
+}
+
+// render returns the text of [lo,hi) with every edit strictly inside applied
+// (self is the edit being generated; it is skipped).
+func (rw *rewriter) render(lo, hi int, self *edit) string {
+	var inside []*edit
+	for _, e := range rw.edits {
+		if e == self || e.lo < lo || e.hi > hi {
+			continue
+		}
+		if self != nil && e.lo == self.lo && e.hi == self.hi {
+			continue
+		}
+		inside = append(inside, e)
+	}
+	// keep only outermost
+	var top []*edit
+	for _, e := range inside {
+		contained := false
+		for _, o := range inside {
+			if o != e && o.lo <= e.lo && e.hi <= o.hi && (o.hi-o.lo) > (e.hi-e.lo) {
+				contained = true
+				break
+			}
+		}
+		if !contained {
+			top = append(top, e)
+		}
+	}
+	sort.Slice(top, func(i, j int) bool { return top[i].lo < top[j].lo })
+	var b strings.Builder
+	pos := lo
+	for _, e := range top {
+		if e.lo < pos {
+			continue // overlapping (should not happen)
+		}
+		b.Write(rw.src[pos:e.lo])
+		b.WriteString(e.gen())
+		pos = e.hi
+	}
+	b.Write(rw.src[pos:hi])
+	return b.String()
 }
 
 func isPkgSel(e ast.Expr, pkg string, names ...string) (string, bool) {
@@ -104,20 +165,17 @@ func isPkgSel(e ast.Expr, pkg string, names ...string) (string, bool) {
 }
 
 func (rw *rewriter) call(c *ast.CallExpr) {
-	if rw.skip[c] {
-		return
-	}
 	if rw.rules["net"] {
 		if n, ok := isPkgSel(c.Fun, rw.netName, "Dial", "DialTimeout", "ResolveIPAddr"); ok {
-			c.Fun = hookSel(n)
-			rw.changed = true
+			rw.edits = append(rw.edits, &edit{rw.off(c.Fun.Pos()), rw.off(c.Fun.End()), func() string { return hookName + "." + n }})
 			rw.counts["net"]++
+			rw.removed[rw.netName]++
 			return
 		}
 		if _, ok := isPkgSel(c.Fun, rw.httpNm, "Post"); ok {
-			c.Fun = hookSel("HTTPPost")
-			rw.changed = true
+			rw.edits = append(rw.edits, &edit{rw.off(c.Fun.Pos()), rw.off(c.Fun.End()), func() string { return hookName + ".HTTPPost" }})
 			rw.counts["net"]++
+			rw.removed[rw.httpNm]++
 			return
 		}
 	}
@@ -125,14 +183,17 @@ func (rw *rewriter) call(c *ast.CallExpr) {
 		if se, ok := c.Fun.(*ast.SelectorExpr); ok && len(c.Args) == 0 {
 			switch se.Sel.Name {
 			case "Lock", "Unlock", "RLock", "RUnlock":
-				// skip package-qualified calls (pkg.Lock())
 				if id, ok := se.X.(*ast.Ident); ok && id.Obj == nil && importedAs(rw.file, id.Name) {
 					break
 				}
+				e := &edit{lo: rw.off(c.Pos()), hi: rw.off(c.End())}
 				site := rw.site(c.Pos())
-				c.Args = []ast.Expr{site, &ast.UnaryExpr{Op: token.AND, X: &ast.ParenExpr{X: se.X}}}
-				c.Fun = hookSel(se.Sel.Name)
-				rw.changed = true
+				name := se.Sel.Name
+				xlo, xhi := rw.off(se.X.Pos()), rw.off(se.X.End())
+				e.gen = func() string {
+					return hookName + "." + name + "(" + site + ", &(" + rw.render(xlo, xhi, e) + "))"
+				}
+				rw.edits = append(rw.edits, e)
 				rw.counts["lock"]++
 				return
 			}
@@ -141,44 +202,22 @@ func (rw *rewriter) call(c *ast.CallExpr) {
 	if rw.rules["rand"] {
 		if n, ok := isPkgSel(c.Fun, rw.randNm); ok {
 			if res, known := randResults[n]; known {
-				inner := &ast.CallExpr{Fun: c.Fun, Args: c.Args, Ellipsis: c.Ellipsis}
-				rw.skip[inner] = true
-				yield := &ast.ExprStmt{X: &ast.CallExpr{Fun: hookSel("Yield"), Args: []ast.Expr{rw.site(c.Pos())}}}
-				var body []ast.Stmt
-				ft := &ast.FuncType{Params: &ast.FieldList{}}
-				if res == "" {
-					body = []ast.Stmt{yield, &ast.ExprStmt{X: inner}}
-				} else {
-					rt, err := parser.ParseExpr("func() " + res + "{}")
-					if err != nil {
-						panic(err)
+				e := &edit{lo: rw.off(c.Pos()), hi: rw.off(c.End())}
+				site := rw.site(c.Pos())
+				flo, fhi := rw.off(c.Fun.Pos()), rw.off(c.Fun.End())
+				e.gen = func() string {
+					orig := rw.render(flo, fhi, e) + rw.render(fhi, e.hi, e)
+					if res == "" {
+						return "func() { " + hookName + ".Yield(" + site + "); " + orig + " }()"
 					}
-					ft = rt.(*ast.FuncLit).Type
-					body = []ast.Stmt{yield, &ast.ReturnStmt{Results: []ast.Expr{inner}}}
+					return "func() " + res + " { " + hookName + ".Yield(" + site + "); return " + orig + " }()"
 				}
-				c.Fun = &ast.FuncLit{Type: ft, Body: &ast.BlockStmt{List: body}}
-				c.Args = nil
-				c.Ellipsis = token.NoPos
-				rw.changed = true
+				rw.edits = append(rw.edits, e)
 				rw.counts["rand"]++
 				return
 			}
 		}
 	}
-}
-
-func importedAs(f *ast.File, name string) bool {
-	for _, im := range f.Imports {
-		p, _ := strconv.Unquote(im.Path.Value)
-		n := filepath.Base(p)
-		if im.Name != nil {
-			n = im.Name.Name
-		}
-		if n == name {
-			return true
-		}
-	}
-	return false
 }
 
 func inlineArg(e ast.Expr) bool {
@@ -197,103 +236,99 @@ func inlineArg(e ast.Expr) bool {
 	return false
 }
 
-func (rw *rewriter) goStmt(g *ast.GoStmt) ast.Stmt {
+func (rw *rewriter) goStmt(g *ast.GoStmt) {
 	c := g.Call
-	var lhs, rhs []ast.Expr
-	fn := ast.NewIdent("verifF")
-	lhs = append(lhs, fn)
-	rhs = append(rhs, c.Fun)
-	var args []ast.Expr
-	for i, a := range c.Args {
-		if inlineArg(a) {
-			args = append(args, a)
-			continue
-		}
-		id := ast.NewIdent(fmt.Sprintf("verifA%d", i))
-		lhs = append(lhs, id)
-		rhs = append(rhs, a)
-		args = append(args, id)
-	}
-	inner := &ast.CallExpr{Fun: fn, Args: args, Ellipsis: c.Ellipsis}
-	if c.Ellipsis != token.NoPos {
-		inner.Ellipsis = 1
-	}
-	lit := &ast.FuncLit{Type: &ast.FuncType{Params: &ast.FieldList{}}, Body: &ast.BlockStmt{List: []ast.Stmt{&ast.ExprStmt{X: inner}}}}
-	call := &ast.ExprStmt{X: &ast.CallExpr{Fun: hookSel("Go"), Args: []ast.Expr{rw.site(g.Pos()), lit}}}
-	rw.changed = true
-	rw.counts["go"]++
-	return &ast.BlockStmt{List: []ast.Stmt{&ast.AssignStmt{Lhs: lhs, Tok: token.DEFINE, Rhs: rhs}, call}}
-}
-
-func (rw *rewriter) stmts(list []ast.Stmt) {
-	for i, s := range list {
-		if g, ok := s.(*ast.GoStmt); ok && rw.rules["go"] {
-			list[i] = rw.goStmt(g)
-		}
-		if l, ok := s.(*ast.LabeledStmt); ok {
-			if g, ok := l.Stmt.(*ast.GoStmt); ok && rw.rules["go"] {
-				l.Stmt = rw.goStmt(g)
+	e := &edit{lo: rw.off(g.Pos()), hi: rw.off(g.End())}
+	site := rw.site(g.Pos())
+	e.gen = func() string {
+		lhs := []string{"verifF"}
+		rhs := []string{rw.render(rw.off(c.Fun.Pos()), rw.off(c.Fun.End()), e)}
+		var args []string
+		for i, a := range c.Args {
+			txt := rw.render(rw.off(a.Pos()), rw.off(a.End()), e)
+			if inlineArg(a) {
+				args = append(args, txt)
+				continue
 			}
+			id := fmt.Sprintf("verifA%d", i)
+			lhs = append(lhs, id)
+			rhs = append(rhs, txt)
+			args = append(args, id)
 		}
+		call := "verifF(" + strings.Join(args, ", ")
+		if c.Ellipsis != token.NoPos {
+			call += "..."
+		}
+		call += ")"
+		return "{ " + strings.Join(lhs, ", ") + " := " + strings.Join(rhs, ", ") + "; " +
+			hookName + ".Go(" + site + ", func() { " + call + " }) }"
 	}
+	rw.edits = append(rw.edits, e)
+	rw.counts["go"]++
 }
 
-func (rw *rewriter) run() {
+func (rw *rewriter) collect() {
 	ast.Inspect(rw.file, func(n ast.Node) bool {
 		switch v := n.(type) {
 		case *ast.CallExpr:
 			rw.call(v)
-		}
-		return true
-	})
-	// go statements: second pass so that calls inside them were already rewritten
-	ast.Inspect(rw.file, func(n ast.Node) bool {
-		switch v := n.(type) {
-		case *ast.BlockStmt:
-			rw.stmts(v.List)
-		case *ast.CaseClause:
-			rw.stmts(v.Body)
-		case *ast.CommClause:
-			rw.stmts(v.Body)
-		}
-		return true
-	})
-}
-
-// usesImport reports whether the file still refers to the package name.
-func usesImport(f *ast.File, name string) bool {
-	used := false
-	ast.Inspect(f, func(n ast.Node) bool {
-		if se, ok := n.(*ast.SelectorExpr); ok {
-			if id, ok := se.X.(*ast.Ident); ok && id.Name == name && id.Obj == nil {
-				used = true
+		case *ast.GoStmt:
+			if rw.rules["go"] {
+				rw.goStmt(v)
 			}
 		}
-		return !used
+		return true
 	})
-	return used
 }
 
-func fixImports(f *ast.File) {
-	// blank imports that became unused
-	for _, im := range f.Imports {
-		p, _ := strconv.Unquote(im.Path.Value)
-		n := filepath.Base(p)
-		if im.Name != nil {
-			n = im.Name.Name
+func countUses(f *ast.File, name string) int {
+	n := 0
+	ast.Inspect(f, func(nd ast.Node) bool {
+		if se, ok := nd.(*ast.SelectorExpr); ok {
+			if id, ok := se.X.(*ast.Ident); ok && id.Name == name && id.Obj == nil {
+				n++
+			}
 		}
-		if n == "_" || n == "." {
-			continue
-		}
-		if (p == "net" || p == "net/http" || p == "math/rand") && !usesImport(f, n) {
-			im.Name = ast.NewIdent("_")
+		return true
+	})
+	return n
+}
+
+func (rw *rewriter) output() string {
+	body := rw.render(0, len(rw.src), nil)
+	// insert the hook import after the last import declaration
+	lastImportEnd := -1
+	for _, d := range rw.file.Decls {
+		if gd, ok := d.(*ast.GenDecl); ok && gd.Tok == token.IMPORT {
+			lastImportEnd = rw.off(gd.End())
 		}
 	}
-	// add the hook import
-	spec := &ast.ImportSpec{Name: ast.NewIdent(hookName), Path: &ast.BasicLit{Kind: token.STRING, Value: strconv.Quote(hookPath)}}
-	decl := &ast.GenDecl{Tok: token.IMPORT, Specs: []ast.Spec{spec}}
-	f.Decls = append([]ast.Decl{decl}, f.Decls...)
-	f.Imports = append(f.Imports, spec)
+	imp := "\nimport " + hookName + " " + strconv.Quote(hookPath) + "\n"
+	if lastImportEnd < 0 {
+		// after the package clause
+		pe := rw.off(rw.file.Name.End())
+		lastImportEnd = pe
+	}
+	// offsets in body differ from offsets in src once edits were applied; the
+	// import block precedes every edit (edits are inside declarations that
+	// follow the imports), so the prefix is unchanged.
+	for _, e := range rw.edits {
+		if e.lo < lastImportEnd {
+			panic("seamgen: edit before the end of the import block in " + rw.base)
+		}
+	}
+	out := body[:lastImportEnd] + imp + body[lastImportEnd:]
+	// keep imports alive that lost their last use
+	keep := map[string]string{rw.netName: "Dial", rw.httpNm: "Post", rw.randNm: "Int"}
+	for name, n := range rw.removed {
+		if name == "" || n == 0 {
+			continue
+		}
+		if countUses(rw.file, name) == n {
+			out += "\nvar _ = " + name + "." + keep[name] + "\n"
+		}
+	}
+	return out
 }
 
 func main() {
@@ -330,32 +365,37 @@ func main() {
 			if e.IsDir() || !strings.HasSuffix(name, ".go") || strings.HasSuffix(name, "_test.go") {
 				continue
 			}
-			src := filepath.Join(dir, name)
-			fset := token.NewFileSet()
-			f, err := parser.ParseFile(fset, src, nil, parser.ParseComments)
+			srcPath := filepath.Join(dir, name)
+			src, err := os.ReadFile(srcPath)
 			if err != nil {
-				fmt.Fprintf(os.Stderr, "seamgen: parse %s: %v\n", src, err)
+				fmt.Fprintf(os.Stderr, "seamgen: %v\n", err)
 				os.Exit(2)
 			}
-			rw := &rewriter{fset: fset, file: f, base: name, rules: rules, counts: map[string]int{}, skip: map[*ast.CallExpr]bool{},
+			fset := token.NewFileSet()
+			f, err := parser.ParseFile(fset, srcPath, src, parser.ParseComments)
+			if err != nil {
+				fmt.Fprintf(os.Stderr, "seamgen: parse %s: %v\n", srcPath, err)
+				os.Exit(2)
+			}
+			rw := &rewriter{fset: fset, file: f, src: src, base: name, rules: rules, counts: map[string]int{}, removed: map[string]int{},
 				netName: importName(f, "net"), httpNm: importName(f, "net/http"), randNm: importName(f, "math/rand")}
-			rw.run()
-			if !rw.changed {
+			rw.collect()
+			if len(rw.edits) == 0 {
 				continue
 			}
-			fixImports(f)
-			var buf bytes.Buffer
-			if err := printer.Fprint(&buf, fset, f); err != nil {
-				fmt.Fprintf(os.Stderr, "seamgen: print %s: %v\n", src, err)
+			text := rw.output()
+			// the result must parse
+			if _, err := parser.ParseFile(token.NewFileSet(), srcPath, text, 0); err != nil {
+				fmt.Fprintf(os.Stderr, "seamgen: rewritten %s does not parse: %v\n", srcPath, err)
 				os.Exit(2)
 			}
 			dst := filepath.Join(*out, rel, name)
 			os.MkdirAll(filepath.Dir(dst), 0o755)
-			if err := os.WriteFile(dst, buf.Bytes(), 0o644); err != nil {
+			if err := os.WriteFile(dst, []byte(text), 0o644); err != nil {
 				fmt.Fprintf(os.Stderr, "seamgen: %v\n", err)
 				os.Exit(2)
 			}
-			overlay[src] = dst
+			overlay[srcPath] = dst
 			report[filepath.Join(rel, name)] = rw.counts
 		}
 	}
